@@ -53,3 +53,30 @@ Theorem C16_plain_directory_store_safe : forall fo fc entries lnk sz err s',
   /\ (err = None -> lnk = Some (fst (build_plain entries)) /\ In (fst (build_plain entries)) (ws_trace s')).
 Proof. exact plain_build_store_safe. Qed.
 Print Assumptions C16_plain_directory_store_safe.
+
+(* BuildUnixFSRecursive with its writes, for EVERY tree (files, symlinks, directories of any size), every width / chunker /
+   name hash and EVERY plan of failing opens and commits: children are committed before the directory that links to them
+   (every prefix of the commit sequence is free of dangling links), an error comes without a link, a link only after its
+   whole DAG was committed and only if no write failed *)
+From UV Require Import Build.FsImport Build.ImportStore.
+Theorem C16_recursive_import_store_safe : forall fo fc W chunk hash t lnk sz err s',
+  BuildUnixFSRecursive fo fc W chunk hash t ws0 = ((lnk, sz, err), s') ->
+  (forall pre post, ws_trace s' = pre ++ post -> dfree pre)
+  /\ (err <> None -> lnk = None)
+  /\ (err = None -> exists root, lnk = Some root /\ (forall x, In x (built_blocks root) -> In x (ws_trace s'))
+                               /\ no_failure fo fc s' /\ clean s').
+Proof. exact import_store_safe. Qed.
+Print Assumptions C16_recursive_import_store_safe.
+
+(* whenever the builders with storage effects return a link, link and size are exactly what the effect-free builders
+   compute - the models the functional theorems (C01, C02, C07, C11, C18) are about *)
+From UV Require Import Build.StorePure File.Builder.
+Theorem C16_stored_result_is_the_pure_result : forall fo fc W chunk hash t s r s',
+  import_s fo fc W chunk hash t s = (Ok r, s') -> import W chunk hash t = Ok r.
+Proof. exact import_s_pure. Qed.
+Print Assumptions C16_stored_result_is_the_pure_result.
+
+Theorem C16_stored_file_is_the_pure_file : forall fo fc W chunks s r s',
+  build_file_s fo fc W chunks s = (Ok r, s') -> build_file W chunks = Ok r.
+Proof. exact build_file_s_pure. Qed.
+Print Assumptions C16_stored_file_is_the_pure_file.
